@@ -1,0 +1,97 @@
+//! Verification hooks (cargo feature `verif_hooks`, off by default).
+//!
+//! Observation only: every random draw made by the library is recorded in a thread-local
+//! log, and a thread-local replay queue can substitute the value a draw returns (used to
+//! reach corner cases such as a zero blinding scalar). The hooked functions call
+//! themselves once through `enter`/`leave`, so the code that produces the value is the
+//! unmodified production body.
+
+use std::cell::RefCell;
+use std::collections::VecDeque;
+
+/// One recorded draw: kind, parameters and result, all as big-endian byte strings.
+#[derive(Clone, Debug, PartialEq, Eq)]
+pub struct Draw {
+    /// "scalar", "secret", "bits", "number", "prime", "int"
+    pub kind: &'static str,
+    /// parameters of the call (e.g. bit length, bounds), decimal strings
+    pub params: Vec<String>,
+    /// result: bytes for BBS draws, decimal string bytes for CL03 draws
+    pub value: Vec<u8>,
+}
+
+thread_local! {
+    static ACTIVE: RefCell<Vec<&'static str>> = RefCell::new(Vec::new());
+    static LOG: RefCell<Vec<Draw>> = RefCell::new(Vec::new());
+    static QUEUE: RefCell<VecDeque<Vec<u8>>> = RefCell::new(VecDeque::new());
+    static GEN_COUNTS: RefCell<Vec<usize>> = RefCell::new(Vec::new());
+}
+
+/// True when `name` is not already being intercepted on this thread (outer call).
+pub fn enter(name: &'static str) -> bool {
+    ACTIVE.with(|a| {
+        let mut a = a.borrow_mut();
+        if a.contains(&name) {
+            false
+        } else {
+            a.push(name);
+            true
+        }
+    })
+}
+
+/// Ends the interception started by `enter(name)`.
+pub fn leave(name: &'static str) {
+    ACTIVE.with(|a| {
+        let mut a = a.borrow_mut();
+        if let Some(p) = a.iter().rposition(|n| *n == name) {
+            a.remove(p);
+        }
+    });
+}
+
+/// Records a draw; if the replay queue is non-empty its head replaces the value.
+pub fn draw(kind: &'static str, params: Vec<String>, value: Vec<u8>) -> Vec<u8> {
+    let value = QUEUE.with(|q| q.borrow_mut().pop_front()).unwrap_or(value);
+    LOG.with(|l| {
+        l.borrow_mut().push(Draw {
+            kind,
+            params,
+            value: value.clone(),
+        })
+    });
+    value
+}
+
+/// Takes (and clears) the draw log of this thread.
+pub fn take_log() -> Vec<Draw> {
+    LOG.with(|l| std::mem::take(&mut *l.borrow_mut()))
+}
+
+/// Appends a value to the replay queue of this thread.
+pub fn push_queue(value: Vec<u8>) {
+    QUEUE.with(|q| q.borrow_mut().push_back(value));
+}
+
+/// Empties the replay queue of this thread.
+pub fn clear_queue() {
+    QUEUE.with(|q| q.borrow_mut().clear());
+}
+
+/// Records the `count` argument of a generator creation.
+pub fn log_gen_count(count: usize) {
+    GEN_COUNTS.with(|g| g.borrow_mut().push(count));
+}
+
+/// Takes (and clears) the generator-count log of this thread.
+pub fn take_gen_counts() -> Vec<usize> {
+    GEN_COUNTS.with(|g| std::mem::take(&mut *g.borrow_mut()))
+}
+
+/// Resets the interception state after a caught panic.
+pub fn reset() {
+    ACTIVE.with(|a| a.borrow_mut().clear());
+    clear_queue();
+    let _ = take_log();
+    let _ = take_gen_counts();
+}
